@@ -140,7 +140,7 @@ def canon_cmp(v):
 
 
 class Explorer:
-    def __init__(self, f, stop=None, unwind=False, max_paths=600, max_visits=2, max_steps=4000, on_call=None, decide=None, stop_blocks=None):
+    def __init__(self, f, stop=None, unwind=False, max_paths=600, max_visits=2, max_steps=4000, on_call=None, decide=None, stop_blocks=None, on_drop=None, deep_events=False):
         self.f = f
         self.stop = stop            # stop(bb, term, state) -> reason or None : checked before a call / drop is executed
         self.unwind = unwind
@@ -149,6 +149,8 @@ class Explorer:
         self.max_steps = max_steps
         self.on_call = on_call      # on_call(bb, term, args, state) -> value or None : model a call's result
         self.decide = decide        # decide(bb, term, value, state) -> list of targets or None
+        self.on_drop = on_drop      # on_drop(bb, term, state) -> anything: stored as the 6th element of the drop event
+        self.deep_events = deep_events   # record the arguments of calls with references resolved at call time (9th element)
         self.stop_blocks = set(stop_blocks or ())   # entering one of these blocks ends the path ("stop", bb, "block")
         self.paths = []
 
@@ -318,6 +320,7 @@ class Explorer:
                     name = call_name(t)
                     args = [st.operand(a) for a in t["args"]]
                     derefs = [st.read_key(a[1]) if a[0] == "ref" else None for a in args]
+                    deep_args = [deep(st, a) for a in args] if self.deep_events else None
                     res = None
                     if self.on_call:
                         res = self.on_call(bb, t, args, st)
@@ -326,7 +329,7 @@ class Explorer:
                         if res and res[0] == "call" and len(res) == 5 and res[3] == bb and visits.get(bb, 1) > 1:
                             res = res + (visits.get(bb, 1),)     # the same call site on a later loop iteration yields a different value
                     st.calls.append((bb, name, args, res))
-                    events = events + [(bb, "call", name, args, res, derefs, t.get("callee"), t.get("res_name") or "")]
+                    events = events + [(bb, "call", name, args, res, derefs, t.get("callee"), t.get("res_name") or "", deep_args)]
                     st.write_key(pl_key(t["dest"]), res)
                     if t.get("target") is None:
                         self._emit(Path(blocks, st, events, conds, ("diverge", bb)))
@@ -334,7 +337,8 @@ class Explorer:
                     bb = t["target"]
                     continue
                 if k == "drop":
-                    events = events + [(bb, "drop", t["ty"], st.resolve_key(pl_key(t["pl"])), st.read_place(t["pl"]))]
+                    extra = self.on_drop(bb, t, st) if self.on_drop else None
+                    events = events + [(bb, "drop", t["ty"], st.resolve_key(pl_key(t["pl"])), st.read_place(t["pl"]), extra)]
                     bb = t["target"]
                     continue
                 if k == "assert":
